@@ -96,16 +96,28 @@ type Node struct {
 	AppHash []byte
 	Vals    []Val // current validator set (sorted by pubkey)
 	Sanity  bool
+	// CommitLock, if set, is held around Commit (CometBFT holds the mempool lock
+	// during Commit, so no CheckTx overlaps it).
+	CommitLock sync.Locker
 }
+
+// PruneKeep > 0 configures replicas created afterwards with the keep-last-N
+// state pruner (the prune worker's ticker never fires within a run; the
+// harness calls Pruner().Prune itself).
+var PruneKeep uint64
 
 // NewNode creates a replica (memory-only if dir is empty) and starts it.
 func NewNode(doc *genesis.Document, ident *identity.Identity, backend, dir string, withSanity bool) (*Node, error) {
 	Init(doc)
 	ctx, cancel := context.WithCancel(context.Background())
+	prune := abci.PruneConfig{Strategy: abci.PruneNone, PruneInterval: time.Hour}
+	if PruneKeep > 0 {
+		prune = abci.PruneConfig{Strategy: abci.PruneKeepN, NumKept: PruneKeep, PruneInterval: time.Hour}
+	}
 	cfg := &abci.ApplicationConfig{
 		DataDir:             dir,
 		StorageBackend:      backend,
-		Pruning:             abci.PruneConfig{Strategy: abci.PruneNone, PruneInterval: time.Hour},
+		Pruning:             prune,
 		HaltEpoch:           math.MaxUint64,
 		MinGasPrice:         0,
 		DisableCheckpointer: true,
@@ -359,7 +371,13 @@ func (n *Node) Exec(b *Block, path Path, hook Hook) (res *Result) {
 	res.ValidatorUpdates = eb.ValidatorUpdates
 	res.BlockEvents = append(res.BlockEvents, eb.Events...)
 	call()
+	if n.CommitLock != nil {
+		n.CommitLock.Lock()
+	}
 	cm := n.Mux.Commit()
+	if n.CommitLock != nil {
+		n.CommitLock.Unlock()
+	}
 	res.AppHash = cm.Data
 	n.Height = height
 	n.AppHash = cm.Data
